@@ -230,6 +230,19 @@ theorem hostGroup_append_some (rest q v : Bytes) (h : hostGroup rest = some v) :
       simpa [hl] using h
   · simp [hs] at h
 
+theorem host_take_no_lf (rest : Bytes) (hs : startsCI hostLit rest = true) : LF ∉ rest.take 5 := by
+  intro e
+  match rest, hs, e with
+  | [], hs, _ => simp [startsCI, hostLit] at hs
+  | [_], hs, _ => simp [startsCI, hostLit] at hs
+  | [_, _], hs, _ => simp [startsCI, hostLit] at hs
+  | [_, _, _], hs, _ => simp [startsCI, hostLit] at hs
+  | [_, _, _, _], hs, _ => simp [startsCI, hostLit] at hs
+  | a :: b :: c :: d :: f :: r, hs, e =>
+    simp only [startsCI, hostLit, Bool.and_eq_true, decide_eq_true_eq] at hs
+    simp only [List.take, List.mem_cons, List.mem_nil_iff, or_false] at e
+    rcases e with e | e | e | e | e <;> subst e <;> simp [asciiLowerB, LF] at hs
+
 /-- if more bytes make the Host group match where it did not before, the line was not finished: no LF yet -/
 theorem hostGroup_append_flip (rest q : Bytes) (h0 : hostGroup rest = none) (h1 : hostGroup (rest ++ q) ≠ none) :
     LF ∉ rest := by
@@ -240,11 +253,7 @@ theorem hostGroup_append_flip (rest q : Bytes) (h0 : hostGroup rest = none) (h1 
       intro hm
       rw [← List.take_append_drop 5 rest] at hm
       rcases List.mem_append.mp hm with e | e
-      · match rest, hs, e with
-        | a :: b :: c :: d :: f :: r, hs, e =>
-          simp only [startsCI, hostLit, Bool.and_eq_true, decide_eq_true_eq] at hs
-          simp only [List.take, List.mem_cons, List.mem_nil_iff, or_false] at e
-          rcases e with e | e | e | e | e <;> subst e <;> simp [asciiLowerB, LF] at hs
+      · exact host_take_no_lf rest hs e
       · exact h5 e
     | some l =>
       exfalso
@@ -621,6 +630,16 @@ theorem requestLine_no_cr (method target : Bytes) (hm : ∀ x ∈ method, isTcha
   · exact (tchar_facts _ (hm _ h)).1 rfl
   · exact absurd h (by decide)
   · exact (ht _ h).1 rfl
+  · revert h; decide
+
+theorem requestLine_no_lf (method target : Bytes) (hm : ∀ x ∈ method, isTchar x = true)
+    (ht : ∀ x ∈ target, x ≠ CR ∧ x ≠ LF) : LF ∉ requestLine method target := by
+  intro hmem
+  simp only [requestLine, httpVer, List.mem_append, List.mem_cons, List.mem_nil_iff, or_false] at hmem
+  rcases hmem with h | h | h | h
+  · exact (tchar_facts _ (hm _ h)).2.1 rfl
+  · exact absurd h (by decide)
+  · exact (ht _ h).2 rfl
   · revert h; decide
 
 /-! ## ClientHello extraction and the verdict under more bytes (TCP) -/
